@@ -9,6 +9,8 @@ import hashlib
 from vlib.engine import Contract, Job, Known
 
 TUS = ['smt/sat_core.cpp']
+import os
+SOLVER = os.environ.get('C13_SOLVER', 'cadical')
 SPEC = ['sat_spec.h', 'sat_spec2.h']
 NEW_VAR = 'smt_sat_core_new_var'
 NEW_CLAUSE = 'smt_sat_core_new_clause__vec_lit'
@@ -135,6 +137,7 @@ def exo_contract(nl):
                  ('root_assignment_unchanged', UNCHANGED),
                  ('excludes_nothing', '!(sg_ext(xt_sigma, %s) && (self->assigns.n == %s || sg_lit(xt_sigma, sp_mk_lit(%s, 1)) == %s)) || (%s && (!%s || sg_lit(xt_sigma, %s) || self->assigns.n == %s))' % (
                      A0, N0, N0, EXO, LOG, EXO, R, N0)),
+                 ('creates_variable_when_open', '!(sp_open_count(%s, ls) >= 2 && !sp_any_root_true(%s, ls)) || self->assigns.n == %s + 1' % (A0, A0, N0)),
                  ('true_when_satisfied_without_new_variable', '!(self->assigns.n == %s && sg_ext(xt_sigma, %s) && %s) || sg_lit(xt_sigma, %s)' % (N0, A0, EXO, R)),
                  ('at_most_one_new_variable', 'self->assigns.n <= %s + 1' % N0),
                  ('log_bounded', 'xt_ncl >= %s && xt_ncl <= %s + %d' % (NCL0, NCL0, mc)), ('exprs_growth_bounded', 'self->exprs.n <= __CPROVER_old(self->exprs.n) + 3'), RES_IS_NEW],
@@ -156,7 +159,7 @@ def jobs(tier):
         out.append(Job('sat.' + name, target, tus=TUS, contract=contract, defines=d, unwind=unwind,
                        model_unwind=max(d['XT_MAXLITS'], d['XT_MAXV'], d['XT_MAXCL'], d['XT_EXPRS_CAP'], d['CM_STR_CAP'], 9) + 1,
                        spec_headers=SPEC, callee_contracts={k: v for k, v in cc.items() if k in replace},
-                       replace=list(replace), exceptions=True, caps=CAPS, abstract_fields=ABS, harness_pre=HPRE, timeout=2400,
+                       replace=list(replace), exceptions=True, caps=CAPS, abstract_fields=ABS, harness_pre=HPRE, timeout=2400, solver=SOLVER,
                        replay={'driver': 'sat', 'stanza': REPLAY_HEAD + replay} if replay else None,
                        bounded='<= %d pre-existing variables with symbolic root values; argument lists as stated per job; container capacities %s' % (nv0, CAPS), **kw))
 
